@@ -82,7 +82,7 @@ func main() {
 	case "setup":
 		os.Exit(setup())
 	case "overlay":
-		if err := writeOverlay(); err != nil {
+		if err := prepare(true); err != nil {
 			fmt.Println("overlay:", err)
 			os.Exit(3)
 		}
